@@ -12,4 +12,5 @@ Definition hist_mask_width : N := 64.
 Definition mt_window_width : N := 64.
 Definition mutate_index_width : N := 16.
 Definition default_priority_single : N := 1.
+Definition cond_sequence_width : N := 64.
 Definition tcp_size_width : N := 16.
